@@ -36,6 +36,11 @@ pub struct ParCase {
     /// allocator fill (stale heap memory) during the run
     pub fill: Option<u64>,
     pub stack_kib: usize,
+    /// library-side scheduling points enabled this run (bit per site) and their period
+    #[serde(default)]
+    pub lib_mask: u64,
+    #[serde(default)]
+    pub lib_every: u32,
 }
 
 #[derive(Clone, Debug, PartialEq, Eq, Serialize, Deserialize)]
@@ -146,6 +151,11 @@ pub fn execute(case: &ParCase, spec: &SchedSpec, yield_mode: u8) -> RunResult {
     let shared = Arc::new(case.clone());
     let out2 = out.clone();
     worlds::set_poison_all(case.poison_run);
+    if yield_mode == sched::YIELD_NONE && matches!(spec.kind, SchedKind::Sequential) && case.tasks.len() > 1 {
+        sched::set_lib_sites(0, 1); // the sequential re-run
+    } else {
+        sched::set_lib_sites(case.lib_mask, case.lib_every);
+    }
     let body = Arc::new(move |t: usize| {
         let case = &shared;
         for (k, op) in case.tasks[t].iter().enumerate() {
@@ -167,6 +177,7 @@ pub fn execute(case: &ParCase, spec: &SchedSpec, yield_mode: u8) -> RunResult {
         }
     });
     let trace = sched::run_world(spec, ntasks, yield_mode, case.stack_kib, body);
+    sched::set_lib_sites(0, 1);
     worlds::set_poison_all(None);
     let outcomes = out.lock().unwrap().clone();
     RunResult { outcomes, trace }
@@ -241,6 +252,9 @@ pub fn run_case(case: &ParCase, stats: &mut Stats, miri: bool) -> Result<ParInfo
     stats.add("sched.decisions", run.trace.decisions.len() as u64);
     stats.add("sched.switches", run.trace.switches);
     stats.add("seam.events", run.trace.events);
+    let (lib_hits, lib_yields) = sched::take_lib_counters();
+    stats.add("sched.library_site_hits", lib_hits);
+    stats.add("sched.library_site_yields", lib_yields);
 
     let mut dg = Fp::new();
     dg.push(run.trace.event_fp);
@@ -355,10 +369,15 @@ pub fn run_case(case: &ParCase, stats: &mut Stats, miri: bool) -> Result<ParInfo
                 "C16" => {
                     let (rres, _) = &refs[&(world, is64, input)];
                     if &o.res != rres {
-                        let clause = if case.tasks.len() > 1 && preempted { "O1-concurrent" } else { "O1" };
                         return Err(Violation::new(
-                            format!("C16/{}", clause),
-                            format!("{} returned {:x?}, reference call on plain slices returned {:x?}", describe_call(case, t, k), o.res, rres),
+                            "C16/O1",
+                            format!(
+                                "{} returned {:x?}, reference call on plain slices returned {:x?}{}",
+                                describe_call(case, t, k),
+                                o.res,
+                                rres,
+                                if case.tasks.len() > 1 && preempted { " (call was pre-empted)" } else { "" }
+                            ),
                         ));
                     }
                     if let Res::Panic(site) = &o.res {
@@ -521,18 +540,34 @@ pub fn gen_case(seed: u64, cfg: &GenCfg) -> ParCase {
         "C15" => &[0, 0, 1, 1, 4, 4, 2, 3],
         _ => &[0, 1, 2, 3, 4],
     };
+    // "sticky" runs: every task keeps hammering one or two related requests, so that
+    // state shared between callers (caches, scratch buffers) is hit while it is being rewritten
+    let sticky = ntasks > 1 && r.chance(1, 2);
     let mut tasks = Vec::new();
     for _ in 0..ntasks {
-        let nops = 1 + r.usize_below(max_ops);
+        let nops = if sticky { 2 + r.usize_below(max_ops.max(3) - 1) } else { 1 + r.usize_below(max_ops) };
         let mut ops = Vec::new();
+        let pinned_a = r.usize_below(inputs.len());
+        let pinned_b = r.usize_below(inputs.len());
+        let pinned_world = *r.pick(worlds_under_test);
         for _ in 0..nops {
             if !cfg.miri && r.chance(1, 6) {
                 ops.push(POp::StackPoison { pattern: r.next_u64(), kib: *r.pick(&[16u32, 32, 64, 128]) });
                 continue;
             }
-            let input = r.usize_below(inputs.len());
+            let input = if sticky {
+                if r.chance(3, 4) {
+                    pinned_a
+                } else {
+                    pinned_b
+                }
+            } else {
+                r.usize_below(inputs.len())
+            };
             let inp = &inputs[input];
-            let is64 = if inp.family.ends_with("f32") {
+            let is64 = if sticky && !inp.family.contains("f32") {
+                true
+            } else if inp.family.ends_with("f32") {
                 r.chance(1, 6)
             } else if inp.family.ends_with("f64") {
                 !r.chance(1, 6)
@@ -541,7 +576,8 @@ pub fn gen_case(seed: u64, cfg: &GenCfg) -> ParCase {
             };
             // very long inputs: keep to cheap shapes
             let (si, sf) = draw_shape_pair(&mut r, inp.int.len(), inp.frac.len(), false);
-            ops.push(POp::Parse { world: *r.pick(worlds_under_test), f64: is64, input, si, sf });
+            let world = if sticky && r.chance(3, 4) { pinned_world } else { *r.pick(worlds_under_test) };
+            ops.push(POp::Parse { world, f64: is64, input, si, sf });
         }
         tasks.push(ops);
     }
@@ -566,6 +602,16 @@ pub fn gen_case(seed: u64, cfg: &GenCfg) -> ParCase {
         poison_run: if cfg.miri { None } else { Some(r.next_u64() | 2) },
         fill: if cfg.miri || r.chance(1, 4) { None } else { Some(r.next_u64() | 1) },
         stack_kib: 512,
+        lib_mask: if ntasks == 1 {
+            0
+        } else {
+            match r.below(4) {
+                0 => 0,
+                1 => u64::MAX,
+                _ => r.next_u64() & r.next_u64() | (1 << (r.below(30) + 1)),
+            }
+        },
+        lib_every: *r.pick(&[1u32, 1, 2, 5, 16]),
     }
 }
 
@@ -735,6 +781,8 @@ pub fn gen_case_c08(seed: u64, cfg: &GenCfg) -> ParCase {
         poison_run: if cfg.miri { None } else { Some(r.next_u64() | 2) },
         fill: None,
         stack_kib: 512,
+        lib_mask: 0,
+        lib_every: 1,
     }
 }
 
@@ -807,6 +855,11 @@ impl Shrink for ParCase {
         if self.fill.is_some() {
             let mut c = self.clone();
             c.fill = None;
+            out.push(c);
+        }
+        if self.lib_mask != 0 {
+            let mut c = self.clone();
+            c.lib_mask = 0;
             out.push(c);
         }
         if self.poison_run.is_some() && self.poison_run != self.poison_ref {
@@ -959,6 +1012,8 @@ pub fn describe(case: &ParCase, with_trace: Option<&SchedTrace>) -> serde_json::
         "scheduler": format!("{:?}", match &case.sched.kind { SchedKind::Replay{decisions} => format!("Replay({} decisions)", decisions.len()), k => format!("{:?}", k) }),
         "scheduler_seed": case.sched.seed,
         "yield_mode": case.yield_mode,
+        "library_sched_sites_mask": format!("{:#x}", case.lib_mask),
+        "library_sched_sites_period": case.lib_every,
         "poison_run": case.poison_run,
         "alloc_fill": case.fill,
     });
